@@ -301,3 +301,120 @@ Proof.
   exists [EvZeroR; EvRead 216; EvZeroBoth; EvWrite 50; EvRead 216], [216; 216].
   split; [reflexivity|]. vm_compute. discriminate.
 Qed.
+
+(* ---- both directions on one protocol object: the reset sites ---- *)
+Lemma xrun_writes s ws : forall c rest,
+  xrun s c (map XWrite ws ++ rest) = xrun s (mkCtr (c_read c) (c_written c + sumN ws)) rest.
+Proof.
+  induction ws as [|n ws IH]; intros c rest; cbn [map app sumN].
+  - rewrite N.add_0_r. destruct c; reflexivity.
+  - cbn [xrun xstep app cstep]. rewrite IH. cbn [c_read c_written].
+    rewrite N.add_assoc. reflexivity.
+Qed.
+
+Lemma xrun_reads s rs : forall c rest,
+  xrun s c (map XRead rs ++ rest) = xrun s (mkCtr (c_read c + sumN rs) (c_written c)) rest.
+Proof.
+  induction rs as [|n rs IH]; intros c rest; cbn [map app sumN].
+  - rewrite N.add_0_r. destruct c; reflexivity.
+  - cbn [xrun xstep app cstep]. rewrite IH. cbn [c_read c_written].
+    rewrite N.add_assoc. reflexivity.
+Qed.
+
+(* whole Packs one after the other, from any counter state: each reports its own bytes *)
+Lemma xrun_seq_packs s : pack_zero s <> ZR -> forall pf c,
+  List.filter is_opacked (xrun s c (concat (map pack_trace pf)))
+  = map (fun ws => OPacked (u32 (sumN ws))) pf.
+Proof.
+  intros Hz. induction pf as [|ws pf IH]; intros c; [reflexivity|].
+  cbn [map concat]. unfold pack_trace at 1. cbn [app]. rewrite <- app_assoc.
+  cbn [xrun xstep app]. rewrite xrun_writes. cbn [app xrun xstep List.filter is_opacked c_written c_read].
+  rewrite IH. f_equal. f_equal. f_equal.
+  destruct (pack_zero s); [contradiction Hz; reflexivity| |]; cbn [zev cstep c_written]; reflexivity.
+Qed.
+
+Lemma xrun_seq_unpacks s : unpack_zero s <> ZW -> forall uf c,
+  List.filter is_ounpacked (xrun s c (concat (map unpack_trace uf)))
+  = map (fun rs => OUnpacked (u32 (sumN rs))) uf.
+Proof.
+  intros Hz. induction uf as [|rs uf IH]; intros c; [reflexivity|].
+  cbn [map concat]. unfold unpack_trace at 1. cbn [app]. rewrite <- app_assoc.
+  cbn [xrun xstep app]. rewrite xrun_reads. cbn [app xrun xstep List.filter is_ounpacked is_opacked negb c_written c_read].
+  rewrite IH. f_equal. f_equal. f_equal.
+  destruct (unpack_zero s); [|contradiction Hz; reflexivity|]; cbn [zev cstep c_read]; reflexivity.
+Qed.
+
+(* when Unpack's reset site zeroes the read counter only, nothing the unpacking goroutine
+   does reaches a size reported by Pack: the interleaved run reports what the Packs alone do *)
+Lemma xrun_pack_proj s : unpack_zero s = ZR -> forall evs c1 c2,
+  c_written c1 = c_written c2 ->
+  List.filter is_opacked (xrun s c1 evs) = List.filter is_opacked (xrun s c2 (List.filter pside evs)).
+Proof.
+  intros Hz. induction evs as [|e evs IH]; intros c1 c2 H; [reflexivity|].
+  cbn [List.filter]. destruct e; cbn [pside xrun xstep app].
+  - apply IH. destruct (pack_zero s); cbn [zev cstep c_written]; congruence.
+  - apply IH. cbn [cstep c_written]. congruence.
+  - cbn [List.filter is_opacked]. rewrite H. f_equal. apply IH. exact H.
+  - apply IH. rewrite Hz. cbn [zev cstep c_written]. exact H.
+  - apply IH. cbn [cstep c_written]. exact H.
+  - cbn [List.filter is_opacked]. apply IH. exact H.
+Qed.
+
+Lemma xrun_unpack_proj s : pack_zero s = ZW -> forall evs c1 c2,
+  c_read c1 = c_read c2 ->
+  List.filter is_ounpacked (xrun s c1 evs) = List.filter is_ounpacked (xrun s c2 (List.filter uside evs)).
+Proof.
+  intros Hz. induction evs as [|e evs IH]; intros c1 c2 H; [reflexivity|].
+  cbn [List.filter]. destruct e; cbn [uside pside negb xrun xstep app].
+  - apply IH. rewrite Hz. cbn [zev cstep c_read]. exact H.
+  - apply IH. cbn [cstep c_read]. exact H.
+  - cbn [List.filter is_ounpacked is_opacked negb]. apply IH. exact H.
+  - apply IH. destruct (unpack_zero s); cbn [zev cstep c_read]; congruence.
+  - apply IH. cbn [cstep c_read]. congruence.
+  - cbn [List.filter is_ounpacked is_opacked negb]. rewrite H. f_equal. apply IH. exact H.
+Qed.
+
+Theorem sites_sizes_own s : pack_zero s = ZW -> unpack_zero s = ZR -> sizes_own s.
+Proof.
+  intros Hp Hu evs c pf uf Hpf Huf. split.
+  - rewrite (xrun_pack_proj s Hu evs c c eq_refl), Hpf.
+    apply xrun_seq_packs. rewrite Hp. discriminate.
+  - rewrite (xrun_unpack_proj s Hp evs c c eq_refl), Huf.
+    apply xrun_seq_unpacks. rewrite Hu. discriminate.
+Qed.
+
+(* one execution on which every other choice of the two reset sites reports a wrong size:
+   Pack1 = writes 4, 72; Unpack1 = reads 3, 5 beginning between the two writes of Pack1;
+   Pack2 = write 1, beginning between the two reads of Unpack1; Unpack2 = read 2 *)
+Definition cross_witness : list xev :=
+  [XPackBegin; XWrite 4; XUnpackBegin; XRead 3; XWrite 72; XPackEnd;
+   XPackBegin; XRead 5; XWrite 1; XPackEnd; XUnpackEnd; XUnpackBegin; XRead 2; XUnpackEnd].
+
+Theorem sites_sizes_own_iff s : sizes_own s <-> (pack_zero s = ZW /\ unpack_zero s = ZR).
+Proof.
+  split.
+  - intros H.
+    specialize (H cross_witness (mkCtr 7 9) [[4; 72]; [1]] [[3; 5]; [2]] eq_refl eq_refl).
+    destruct s as [p u]. destruct p, u; vm_compute in H; destruct H as [H1 H2];
+      try discriminate H1; try discriminate H2; split; reflexivity.
+  - intros [Hp Hu]. apply sites_sizes_own; assumption.
+Qed.
+
+(* the two shared-zero variants, each with the size it reports *)
+Theorem unpack_zero_both_refuted :
+  exists evs c,
+    List.filter pside evs = pack_trace [4; 72] /\ List.filter uside evs = unpack_trace [76] /\
+    List.filter is_opacked (xrun (mkSites ZW ZB) c evs) = [OPacked 72].
+Proof.
+  exists [XPackBegin; XWrite 4; XUnpackBegin; XWrite 72; XPackEnd; XRead 76; XUnpackEnd], (mkCtr 0 0).
+  repeat split; reflexivity.
+Qed.
+
+Theorem pack_zero_both_refuted :
+  exists evs c,
+    List.filter pside evs = pack_trace [50] /\ List.filter uside evs = unpack_trace [216; 216] /\
+    List.filter is_ounpacked (xrun (mkSites ZB ZR) c evs) = [OUnpacked 216].
+Proof.
+  exists [XUnpackBegin; XRead 216; XPackBegin; XWrite 50; XPackEnd; XRead 216; XUnpackEnd], (mkCtr 0 0).
+  repeat split; reflexivity.
+Qed.
